@@ -27,7 +27,7 @@ the function's persistent cell (data/static_locals.go), so reads and writes of t
 go to the cell.
 -/
 namespace Model.Ctl
-open Spec.Ctl (Val BinOp FName Var IncKind binop incVal looseEq strictEq wrap64)
+open Spec.Ctl (Val BinOp FName Var IncKind binop incVal looseEq strictEq wrap64 aget aset)
 
 /-! ## node tree -/
 
@@ -288,21 +288,21 @@ structure Frame where
 
 structure MSt where
   fr : Frame
-  /-- StaticLocals of every function: slot index ↦ cell -/
-  statics : FName → Nat → Option Val
+  /-- StaticLocals of every function: (function, slot index) ↦ cell -/
+  statics : List ((FName × Nat) × Val)
   out : List String
 
 /-- value held by slot `i` (`none`: index out of range — `GetIndexZVal` returns nil) -/
 def MSt.getSlot (s : MSt) (i : Nat) : Option Val :=
   match s.fr.fn with
-  | some g => if i ∈ s.fr.bound then s.statics g i else s.fr.slots[i]?
+  | some g => if i ∈ s.fr.bound then aget s.statics (g, i) else s.fr.slots[i]?
   | none => s.fr.slots[i]?
 
 def MSt.setSlot (s : MSt) (i : Nat) (v : Val) : Option MSt :=
   match s.fr.fn with
   | some g =>
     if i ∈ s.fr.bound then
-      some { s with statics := fun h j => if h = g ∧ j = i then some v else s.statics h j }
+      some { s with statics := aset s.statics (g, i) v }
     else if i < s.fr.slots.length then
       some { s with fr := { s.fr with slots := s.fr.slots.set i v } }
     else none
@@ -406,8 +406,7 @@ def stmtIncrM (s : MSt) (i : Nat) : MRes Val :=
 
 /-- StaticVarStatement inside a function: create the cell on first use, bind the slot -/
 def bindStatic (g : FName) (s : MSt) (i : Nat) (init : Val) : MSt :=
-  let st := if (s.statics g i).isNone
-    then (fun h j => if h = g ∧ j = i then some init else s.statics h j) else s.statics
+  let st := if (aget s.statics (g, i)).isNone then aset s.statics (g, i) init else s.statics
   let bound := if i < s.fr.slots.length then i :: s.fr.bound else s.fr.bound
   { s with statics := st, fr := { s.fr with bound := bound } }
 
@@ -643,7 +642,7 @@ end
 
 def MSt.init (nvars : Nat) : MSt :=
   { fr := { slots := List.replicate nvars .null, bound := [], fn := none },
-    statics := fun _ _ => none, out := [] }
+    statics := [], out := [] }
 
 open Spec.Ctl (Status)
 
